@@ -187,28 +187,9 @@ def run(ctx):
                   "term)", sv.loc)
     ev = ctx.anchor(CORE + "keys::evaluate_vss")
     if ev:
-        v = FnView.get(P, ev)
         inv = {k: n for k, n in adaptor_inventory(ev).items() if k not in LOOKUPS}
-        rt = v.cx.local(0)
-        folds = [s for s in subterms(rt) if is_call(s, name="fold")]
-        good = (not inv and len(folds) == 1 and folds[0][2][0] == ("call", folds[0][2][0][1], (("field", ("arg", 2), "frost_core::keys::VerifiableSecretSharingCommitment", "0"),), folds[0][2][0][3], folds[0][2][0][4])
-                if folds and is_call(folds[0][2][0], name="iter") else False)
-        ctx.check(good, "RED", ev.key, "fold-over-every-coefficient",
-                  "evaluate_vss must fold over commitment.0.iter() with no element-dropping adaptor (found %s)" % inv,
-                  ev.loc)
-        # closure: (i*i_k, sum + comm*i_k), identifier enters through the captured scalar
-        clo = [s for s in subterms(rt) if s[0] == "closure"]
-        good = False
-        for c in clo:
-            cf = P.fns.get(c[1])
-            if cf and cf.has_body:
-                nsw = [b for b in cf.normal_blocks() if cf.blocks[b].term["k"] == "switch"]
-                ct = TermCx(P, cf).local(0)
-                good = (not nsw and mentions(ct, lambda s: is_call(s, name="add")) and mentions(ct, lambda s: is_call(s, name="value") or is_field(s, "CoefficientCommitment", "0"))
-                        and any(mentions(x, arg(1)) for x in c[2]))
-        ctx.check(good, "RED", ev.key, "fold-step-unconditional-and-uses-identifier",
-                  "the fold step of evaluate_vss must be branch-free, add every coefficient commitment and depend on "
-                  "the identifier", ev.loc)
+        ctx.check(not inv, "RED", ev.key, "fold-over-every-coefficient",
+                  "evaluate_vss must run over every coefficient commitment with no element-dropping adaptor (found %s)" % inv, ev.loc)
     arithmetic_kernels(ctx)
     # any t shares reconstruct: the count refusal of reconstruct is exactly `len < min` (not stricter)
     from .c03 import reconstruct_refusals
@@ -266,27 +247,33 @@ def arithmetic_kernels(ctx):
                 det = str(e)
         ctx.check(good, "AGREE", ep.key, "Horner:value=(value+c_k)*x;+c_0",
                   "evaluate_polynomial is not Horner's rule over coefficients[1..] reversed plus coefficients[0]: %s" % det, ep.loc)
-    cl = P.fns.get(CORE + "keys::evaluate_vss::{closure#0}")
-    if cl and cl.has_body:
-        t = TermCx(P, cl).local(0)
-        leaves = [(lambda x: x == ("field", ("arg", 1), None, "0"), ("scal", "x")), (lambda x: x == ("field", ("arg", 2), None, "0"), ("scal", "pw")),
-                  (lambda x: x == ("field", ("arg", 2), None, "1"), ("elem", "S")),
-                  (lambda x: strip_newtype_fields(x) == ("arg", 3) and x != ("arg", 3), ("elem", "phi"))]
-        good = False
-        det = fmt(t)[:200]
+    ev = ctx.anchor(CORE + "keys::evaluate_vss")
+    if ev:
+        from ..paths import state_iteration, Unbounded
+        vv = FnView.get(P, ev)
+        st = None
+        det = ""
         try:
-            al = Alg(leaves)
-            if t[0] == "agg" and t[1] == "tuple":
-                p2, s2 = al.val(t[4][0][1]), al.val(t[4][1][1])
-                good = p2 == ("scal", pm(sym("x"), sym("pw"))) and s2 == ("elem", {"S": algebra.P(1), "phi": sym("pw")})
-        except Unanalysable as e:
+            st = state_iteration(P, ev, vv, vv.cx.local(0))
+        except Unbounded as e:
             det = str(e)
-        ctx.check(good, "AGREE", cl.key, "(pow',sum')=(x*pow, sum+phi_k*pow)",
-                  "the commitment-evaluation step must be (x*pow, sum + phi_k*pow): %s" % det, cl.loc)
-        ev = P.fns.get(CORE + "keys::evaluate_vss")
-        if ev:
-            rt = FnView.get(P, ev).cx.local(0)
-            fo = [s for s in subterms(rt) if is_call(s, name="fold")]
-            good = len(fo) == 1 and fo[0][2][1][0] == "agg" and is_call(fo[0][2][1][4][0][1], name="one") and is_call(fo[0][2][1][4][1][1], name="identity") \
-                and rt[0] == "field" and rt[3] == "1"
-            ctx.check(good, "AGREE", ev.key, "fold-from-(1,identity)-returns-sum", "evaluate_vss must fold from (1, identity) and return the sum component", ev.loc)
+        leaves = [(lambda x: strip_newtype_fields(x) == ("arg", 1) and x != ("arg", 1), ("scal", "x")),
+                  (lambda x: x == ("st", "a0"), ("scal", "pw")), (lambda x: x == ("st", "r"), ("elem", "S")),
+                  (lambda x: strip_newtype_fields(x) == ITEM and x != ITEM, ("elem", "phi"))]
+        good = st is not None and len(st["cases"]) == 1 and set(st["init"]) == {"r", "a0"} and not st["early_exit"]
+        if good:
+            try:
+                al = Alg(leaves)
+                vals = st["cases"][0]["values"]
+                p2, s2 = al.val(vals["a0"]), al.val(vals["r"])
+                good = p2 == ("scal", pm(sym("x"), sym("pw"))) and s2 == ("elem", {"S": algebra.P(1), "phi": sym("pw")})
+                det = "pow' = %s, sum' = %s" % (show(p2), show(s2))
+            except Unanalysable as e:
+                good = False
+                det = str(e)
+        ctx.check(good, "AGREE", ev.key, "(pow',sum')=(x*pow, sum+phi_k*pow)",
+                  "the commitment-evaluation step must be (x*pow, sum + phi_k*pow), unconditionally for every coefficient: %s" % det, ev.loc)
+        good = st is not None and fld(arg(2), "0")(st["source"]) and is_call(st["init"].get("a0", ("x",)), name="one") and \
+            is_call(st["init"].get("r", ("x",)), name="identity")
+        ctx.check(good, "AGREE", ev.key, "fold-from-(1,identity)-returns-sum",
+                  "evaluate_vss must run over commitment.0 from (1, identity) and return the sum component", ev.loc)
